@@ -44,6 +44,14 @@ class _Worker(Agent):
         self.load = (k * 3 + int(time) * (k + 1)) % 7 - 3
         if (int(time) + k) % 3 == 0:
             self.state = "busy" if self.state == "idle" else "idle"
+        self._acts = getattr(self, "_acts", 0) + 1
+        if REAP and self.id == min(a.id for a in self.model.agents) and self._acts in REAP:
+            # the first worker removes the youngest one in the middle of a step
+            victims = [a.id for a in self.model.agents if a.id != self.id]
+            if victims:
+                self.model.delete_agent(max(victims))
+
+REAP = []
 
 class _Factory(Model):
     def instantiate_model(self):
@@ -89,15 +97,20 @@ def run_rerun(case):
     """through bptk.run_scenarios (hybrid runner): the statistics of a run are those of THAT run's population, also when
     the scenario is simulated a second time after its population changed.  case = (first population, extra agents, stop)"""
     from BPTK_Py import bptk as Bptk
-    n1, extra, stop = case
+    n1, extra, stop = case[:3]
+    dt = case[3] if len(case) > 3 else 1
+    REAP[:] = list(case[4]) if len(case) > 4 else []     # act counts of the first worker at which it deletes the youngest one
     RERUN_LOG.clear()
     b = Bptk()
     b.register_scenario_manager({"smF": {"type": "abm", "model": _Factory(name="factory"), "scenarios": {
-        "base": {"runspecs": {"starttime": 1, "stoptime": stop, "dt": 1}, "properties": {}, "agents": [{"name": "worker", "count": n1}]}}}})
+        "base": {"runspecs": {"starttime": 1, "stoptime": stop, "dt": dt}, "properties": {}, "agents": [{"name": "worker", "count": n1}]}}}})
     def check(phase):
         common = dict(scenario_managers=["smF"], scenarios=["base"], agents=["worker"], agent_states=["idle", "busy"])
         df = b.run_scenarios(return_format="df", **common)
         df2 = b.run_scenarios(return_format="df", agent_properties=["load"], agent_property_types=["total"], **common)
+        idx = [float(x) for x in df.index]
+        if idx != sorted(RERUN_LOG):
+            return "%s: run_scenarios reports the times %r, the run simulated the times %r" % (phase, idx[:8], sorted(RERUN_LOG)[:8])
         for t in sorted(RERUN_LOG):
             for st in ("idle", "busy"):
                 want = len([1 for (s_, l_) in RERUN_LOG[t] if s_ == st])
@@ -226,7 +239,9 @@ def main():
     t_end = time.time() + hint.get('budget_s', 20)
     n = 0
     failures = []
-    for fn, rc in [('run_rerun', (5, 3, 6)), ('run_rerun', (2, 4, 4)), ('run_two', (2, 5, 5)), ('run_two', (4, 1, 4))]:
+    for fn, rc in [('run_rerun', (5, 3, 6)), ('run_rerun', (2, 4, 4)), ('run_two', (2, 5, 5)), ('run_two', (4, 1, 4)),
+                   ('run_rerun', (6, 2, 8, 1, (3, 6))), ('run_rerun', (4, 3, 3, 0.125, ())), ('run_rerun', (5, 2, 3, 0.25, (2, 5, 9))),
+                   ('run_rerun', (3, 2, 2, 0.002, ())), ('run_rerun', (4, 2, 4, 0.5, (1, 2)))]:
         n += 1
         try:
             bad = globals()[fn](rc)
